@@ -13,6 +13,7 @@ import (
 	"fmt"
 	"io"
 	"math/rand"
+	"net"
 	"os"
 	"os/exec"
 	"regexp"
@@ -245,14 +246,35 @@ func main() {
 	w := 1
 	fmt.Sscan(os.Getenv("VERIF_WORKER"), &w)
 	w = w%200 + 20
+	// six loopback addresses private to this process; a set somebody else has bound (another check
+	// running at the same time) is skipped
 	var hosts []string
-	for k := 1; k <= 6; k++ {
-		h := fmt.Sprintf("127.%d.%d.%d", w, os.Getpid()%250+1, k)
-		if err := fake.Serve(h); err != nil {
-			fmt.Fprintln(os.Stderr, "listen:", err)
-			os.Exit(3)
+	for a := 0; a < 200 && len(hosts) == 0; a++ {
+		third := (os.Getpid()+a*41)%250 + 1
+		free := true
+		for k := 1; k <= 6 && free; k++ {
+			ln, err := net.Listen("tcp", fmt.Sprintf("127.%d.%d.%d:9502", w, third, k))
+			if err != nil {
+				free = false
+			} else {
+				ln.Close()
+			}
 		}
-		hosts = append(hosts, h)
+		if !free {
+			continue
+		}
+		for k := 1; k <= 6; k++ {
+			h := fmt.Sprintf("127.%d.%d.%d", w, third, k)
+			if err := fake.Serve(h); err != nil {
+				fmt.Fprintln(os.Stderr, "listen:", err)
+				os.Exit(3)
+			}
+			hosts = append(hosts, h)
+		}
+	}
+	if len(hosts) == 0 {
+		fmt.Fprintln(os.Stderr, "listen: no free loopback addresses")
+		os.Exit(3)
 	}
 	os.MkdirAll(*outDir, 0755)
 	res := result{OpHist: map[string]int{}, Features: map[string]int{}}
